@@ -33,6 +33,13 @@ func DrawCase(t *rapid.T, o gen.GenOpts) *drive.Case {
 		c.Vars[v] = rapid.Bool().Draw(t, v)
 	}
 	c.IDStyle = rapid.SampledFrom([]int{0, 0, 1, 2, 3}).Draw(t, "idStyle")
+	if blk.Features().Sub == 0 && rapid.IntRange(0, 3).Draw(t, "cancelBuild") == 0 {
+		// (not with sub-processes: their tracers are bound to the construction
+		// context, a sub-process entered after that context ended is cancelled
+		// at once and its token never leaves - what the statement says about
+		// cancellation, C07, is checked there with split contexts)
+		c.CancelBuildAfter = rapid.IntRange(1, 3).Draw(t, "cancelBuildAfter")
+	}
 	lw := gen.LowerStyle(blk, c.IDStyle)
 	lw.G.AllNodes(func(n *gen.Node, _ *gen.Graph) {
 		if n.Kind != gen.KTask {
@@ -96,6 +103,7 @@ func classes(c *drive.Case, out *drive.Outcome) (cls []string, nontrivial bool) 
 	add(f.MMerge > 0, "mmerge")
 	add(f.EarlyEnd > 0, "earlyEnd")
 	add(f.MixedNest, "mixedNest")
+	add(c.CancelBuildAfter > 0, "constructionContextCancelledMidRun")
 	add(f.IncNested, "incNested")
 	add(out.MaxPend >= 2, "pending>=2")
 	add(out.LoopIter > 0, "loopIterated")
